@@ -64,6 +64,30 @@ class TargetModel:
         self.machines[key] = m
         return res
 
+    def variants_for_decode(self, path):
+        """Variants of an install root for the rules that decode the written bytes. If-conversion may have folded a case split
+        of an encoder into the bytes (gamma(c, bytes_a, bytes_b)); the decode rules need one instruction sequence per path,
+        so such conditions are kept as separate paths and the root is evaluated again (at most three rounds). Not used on
+        32-bit ARM, where the forced-boolean literal is legitimately a gamma of two function addresses and the entry classes
+        are refined separately."""
+        key = (path, "decode")
+        if key in self._variants:
+            return self._variants[key]
+        res = self.variants(path)
+        mkey = (path, None)
+        if self.arch != "arm":
+            conds = set()
+            for rnd in range(3):
+                new = gamma_conds_in_code_writes(res) - conds
+                if not new or len(conds | new) > 6:
+                    break
+                conds |= new
+                res = self.variants(path, tag=("decode", rnd), split_on=frozenset(conds))
+                mkey = (path, ("decode", rnd))
+        self._variants[key] = res
+        self.machines[key] = self.machines[mkey]
+        return res
+
     def try_variants(self, path, **kw):
         try:
             return self.variants(path, **kw)
@@ -123,6 +147,33 @@ class TargetModel:
             if vs and any(e.kind == "raw_write" for s in vs for e in s.trace):
                 out.append(p)
         return out
+
+
+def gamma_conds_in_code_writes(variants):
+    """Conditions c of gamma(c, a, b) nodes inside the bytes of raw code writes."""
+    from .expr import E, Int
+    out = set()
+    seen = set()
+
+    def walk(e, d=0):
+        if not isinstance(e, E) or d > 60 or id(e) in seen:
+            return
+        seen.add(id(e))
+        if e.op == "gamma":
+            out.add(e.args[0])
+        for a in e.args:
+            if isinstance(a, E):
+                walk(a, d + 1)
+            elif isinstance(a, tuple):
+                for x in a:
+                    walk(x, d + 1)
+    for v in variants:
+        for ev in v.trace:
+            if ev.kind == "raw_write" and ev.extra and ev.extra.get("src_kind") == "bytes":
+                for b in ev.extra["src"] or []:
+                    if isinstance(b, Int):
+                        walk(b.e)
+    return out
 
 
 def subst_int(val, pred, fn):
